@@ -15,7 +15,9 @@ At(a) == [k |-> "atom", a |-> a]
 
 \* prio, npat, nkinds, long
 Shapes == { <<50, 1, 0, FALSE>>, <<50, 1, 0, TRUE>>, <<50, 2, 0, FALSE>>, <<50, 1, 1, TRUE>>,
-            <<50, 1, 2, FALSE>>, <<60, 1, 0, FALSE>>, <<40, 2, 2, TRUE>>, <<50, 2, 1, FALSE>> }
+            <<50, 1, 2, FALSE>>, <<60, 1, 0, FALSE>>, <<40, 2, 2, TRUE>>, <<50, 2, 1, FALSE>>,
+            \* the ends of the priority scale: 0 and negative numbers are priorities like any other (below every default)
+            <<0, 2, 2, TRUE>>, <<-10, 2, 2, TRUE>> }
 SpecOf(sh) == <<sh[1], sh[2], sh[3], (IF sh[4] THEN 10 ELSE 4) + 5 * (sh[2] - 1)>>
 CatSubs == { <<"C1", "">>, <<"C2", "S1">>, <<"C1", "S2">> }
 
